@@ -30,5 +30,43 @@ new = """		if err := cs.retryLocked(a, err); err != nil {
 if s.count(old) != 1:
     sys.exit("grpcretry: withRetry loop not found exactly once in " + p)
 s = s.replace(old, new)
+# retryLocked has a loop of its own (transparent retries of a stream that could
+# not be created on a transport that is dead but not yet known to be)
+old2 = """		if lastErr = cs.replayBufferLocked(attempt); lastErr == nil {
+			return nil
+		}
+	}
+}
+"""
+new2 = """		if lastErr = cs.replayBufferLocked(attempt); lastErr == nil {
+			return nil
+		}
+		verifYield() // VERIF: see /verif/sim/rtoverlay/grpcretry.py
+	}
+}
+"""
+if s.count(old2) != 1:
+    sys.exit("grpcretry: retryLocked loop not found exactly once in " + p)
+s = s.replace(old2, new2)
 open(p, "w").write(s)
-open(p.replace("stream.go", "verif_yield.go"), "w").write("package grpc\n\nimport \"runtime\"\n\nfunc verifYield() { runtime.Gosched() }\n")
+# A plain Gosched is not enough when what ends the retries is a timer: the
+# simulated clock only advances while every goroutine is blocked, and a loop
+# that merely yields never is. Every 16th consecutive yield sleeps 1 us.
+open(p.replace("stream.go", "verif_yield.go"), "w").write("""package grpc
+
+import (
+	"runtime"
+	"time"
+)
+
+var verifYields int
+
+func verifYield() {
+	verifYields++
+	if verifYields%16 == 0 {
+		time.Sleep(time.Microsecond)
+		return
+	}
+	runtime.Gosched()
+}
+""")
